@@ -27,6 +27,7 @@ pub struct VerifDispatcherSnapshot {
     pub syns: Vec<(SocketAddr, u16, u16)>,
     pub next_available_acceptor: bool,
     pub accept_channel_len: usize,
+    pub control_len: usize,
     pub next_connection_id: u16,
 }
 
@@ -146,6 +147,7 @@ impl DispatcherDriver {
                 .collect(),
             next_available_acceptor: d.accept_queue.next_available_acceptor.is_some(),
             accept_channel_len: d.accept_queue.rx.len(),
+            control_len: d.control_rx.len(),
             next_connection_id: d.next_connection_id.0,
         }
     }
